@@ -168,11 +168,14 @@ void SETUP(STATE_T *state, const unsigned char *nonce, unsigned char domain)
 
 void ABSORB(STATE_T *state, const unsigned char *data, size_t size, unsigned char domain, unsigned rounds)
 {
-  tjv_skip();
+  /* leave data steps that are used up, but stop at the absorb step this call implements (it may itself be empty) */
+  for (int t = 0; t < 2; t++) {
+    int k = step_kind(M.pc);
+    if (k == K_ABSORB && M.pos == 0 && domain == step_dom(M.pc) && rounds == step_rounds(M.pc) && data == step_ptr(M.pc) && size == step_len(M.pc)) break;
+    if ((k == K_ABSORB || k == K_STREAM) && M.pos == step_len(M.pc)) { M.pc++; M.pos = 0; M.sub = 0; }
+  }
   int pc = M.pc;
   TJV_REACHED("absorb stub reached");
-  /* an empty stream has been skipped by tjv_skip: absorbing nothing is then a no-op of the specification too */
-  if (size == 0 && step_kind(pc) != K_ABSORB) return;
   TJV_ASSERT(step_kind(pc) == K_ABSORB && M.pos == 0, "absorb call: specification absorbs a whole stream here");
   if (step_kind(pc) != K_ABSORB) return;
   check_key(state);
